@@ -85,7 +85,26 @@ def load(dotted: str, rebind: dict | None = None, pre: dict | None = None) -> ty
             m.__dict__[k] = v
     m.__sx_source_hash__ = hashlib.sha256(src.encode()).hexdigest()[:16]
 
+    import copy as _copy
+    # module-level containers the analysed module defines for itself (memo sets, registries, option dicts): every explored
+    # path starts from their state right after import, as a fresh process would
+    initial = {}
+    for k, v in list(m.__dict__.items()):
+        if not k.startswith("__") and type(v) in (set, dict, list) and (not rebind or k not in rebind):
+            try:
+                initial[k] = _copy.deepcopy(v)
+            except Exception:  # noqa: BLE001
+                pass
+
     def _reset(d=m.__dict__):
+        for k, v0 in initial.items():
+            cur = d.get(k)
+            if type(cur) is type(v0):
+                cur.clear()
+                if isinstance(cur, list):
+                    cur.extend(_copy.deepcopy(v0))
+                else:
+                    cur.update(_copy.deepcopy(v0))
         # functools.lru_cache / cache on functions of the analysed module: every explored path is a fresh process as far as
         # the analysed code can tell (within one path the memo works as written, so aliasing through it is visible)
         import functools
